@@ -64,6 +64,10 @@ def main():
         from . import textparse
 
         textparse.main()
+    elif pid == "C19":
+        from . import c19
+
+        c19.main()
     else:
         print("no check registered for %s" % pid)
         sys.exit(3)
